@@ -248,15 +248,18 @@ def skeleton_check(ctx, exe, sc, thorough):
     for p, txt, toks in files:
         for o in (BRACE_CFGS if thorough else rng.sample(BRACE_CFGS, 5)):
             jobs.append(pipeline.Job("skel", sc.cfg(None, o), p, "C", {"opts": o, "text": txt, "toks": toks}))
-    pipeline.run_jobs(exe, jobs, hooks=False)
+    pipeline.run_jobs(exe, jobs, hooks=False, timeout=10)
     reqs, owners = [], []
     bad = 0
     for j in jobs:
         ctx.case("skel:%s:%s" % (j.inp, sorted(j.meta["opts"].items())))
         if j.res["rc"] != 0:
-            bad += 1
-            ctx.violation("uncrustify exits %s on a statement skeleton with %s" % (j.res["rc"], j.meta["opts"]),
-                          {"options": j.meta["opts"], "input_text": j.meta["text"]}, key=None)
+            key = None
+            if j.res["rc"] == "timeout" and j.meta["opts"].get("nl_after_semicolon") == "true" and any(v == "remove" for v in j.meta["opts"].values()):
+                key = {"kind": "skeleton-hang", "needs": ["nl_after_semicolon", "brace-removal"]}
+            if ctx.violation("uncrustify exits %s on a statement skeleton with %s" % (j.res["rc"], j.meta["opts"]),
+                             {"options": j.meta["opts"], "input_text": j.meta["text"]}, key=key):
+                bad += 1
             continue
         ot = skeleton_tokens(j.res["out"].decode("latin1"))
         if ot is None or isinstance(ot, str):
